@@ -51,6 +51,12 @@ pub struct BookCase {
     /// call would refresh stays as the mutating operations left it
     #[serde(default)]
     pub quiet: u64,
+    /// orders placed before the first operation WITHOUT being observed one by one: (bid, count, price, volume each);
+    /// limit orders that do not cross (the generator's responsibility), one clock tick apart (same timestamp in tie
+    /// histories). Levels of tens of thousands of orders are built this way: auditing after each of them would be
+    /// quadratic. The state they leave is audited as state 0.
+    #[serde(default)]
+    pub bulk: Vec<(bool, u32, u32, u32)>,
 }
 
 #[derive(Clone, Copy, Debug, Default)]
@@ -253,8 +259,8 @@ fn resolve(orders: &[OrderRec], r: Ref) -> Option<usize> {
         return None;
     }
     if r.pref >= 100 {
-        // exact id (enumerators)
-        let id = (r.pref - 100) as usize + r.ix as usize;
+        // exact id (enumerators): 100..199 = small ids (plus ix), 200.. = (pref - 200) * 2^16 + ix
+        let id = if r.pref >= 200 { ((r.pref - 200) as usize) << 16 | r.ix as usize } else { (r.pref - 100) as usize + r.ix as usize };
         return if id < orders.len() { Some(id) } else { None };
     }
     let want = match r.pref {
@@ -341,9 +347,15 @@ impl<'a> Run<'a> {
 
     /// clock discipline: would an order possibly be queued at (bid, price) now, where one was
     /// possibly queued at the same time already?
+    /// Returns false when the operation cannot be executed without a tie: the clock stands at its last value
+    /// (u64::MAX) and cannot be advanced any more; the caller then skips the operation.
     fn discipline(&mut self, bid: bool, price: u32) -> bool {
         let clash = self.last_queue.get(&(bid, price)) == Some(&self.now);
         if clash {
+            if !self.case.tie && self.now == u64::MAX {
+                self.feat.ops_skipped += 1;
+                return false;
+            }
             if self.case.tie {
                 self.feat.ties_created += 1;
             } else {
@@ -354,19 +366,14 @@ impl<'a> Run<'a> {
         }
         let now = self.now;
         self.last_queue.insert((bid, price), now);
-        clash
+        true
     }
 }
 
-/// Largest clock value of a history: with clock discipline the interpreter must always be able to advance
-/// the clock by one before a placement that would tie, so the last 2^20 values stay unused; histories with
-/// ties may run the clock up to u64::MAX itself (and stay there).
-fn clock_cap(case: &BookCase) -> u64 {
-    if case.tie {
-        u64::MAX
-    } else {
-        u64::MAX - (1 << 20)
-    }
+/// Largest clock value of a history: u64::MAX itself (the value the order records use for "no end time yet").
+/// With clock discipline an operation that would tie while the clock stands there is skipped (see `discipline`).
+fn clock_cap(_case: &BookCase) -> u64 {
+    u64::MAX
 }
 
 /// Execute a history with the configured oracles.
@@ -456,6 +463,35 @@ fn no_quiet() -> bool {
 
 impl<'a> Run<'a> {
     fn go(&mut self) -> Result<(), Failure> {
+        for (bid, n, price, vol) in self.case.bulk.clone() {
+            for k in 0..n {
+                if !self.case.tie && self.now < u64::MAX {
+                    let t = self.now + 1;
+                    self.set_time(t);
+                }
+                let r = self.real.create_and_place_order(bid, vol, 7, Some(price));
+                if let Some(m) = self.model.as_mut() {
+                    if let Ok(id) = m.create(bid, vol, 7, Some(price)) {
+                        m.place(id);
+                    }
+                }
+                if r.is_err() {
+                    panic!("harness: bulk order rejected ({:?})", r);
+                }
+                self.is_market.push(false);
+                self.base.push(vol as u64);
+                self.since.push(0);
+                self.fills.push(0);
+                self.qtime.push(Some(self.now));
+                self.tied.push(self.case.tie && (k > 0 || n > 1));
+                self.partially_filled.push(false);
+                let now = self.now;
+                self.last_queue.insert((bid, price), now);
+                if self.case.tie && k > 0 {
+                    self.feat.ties_created += 1;
+                }
+            }
+        }
         let mut pre = capture(self.real.as_ref());
         // state 0 audit
         self.audit_state(0, &Op::Advance(0), &pre)?;
@@ -551,7 +587,9 @@ impl<'a> Run<'a> {
                 }
                 if placing && on_grid {
                     if let Some(p) = price {
-                        self.discipline(*bid, *p);
+                        if !self.discipline(*bid, *p) {
+                            return Ok(pre.clone());
+                        }
                     }
                 }
                 let (b, v, tr, pr) = (*bid, vol, *trader, *price);
@@ -615,8 +653,8 @@ impl<'a> Run<'a> {
                     if o.status != St::New {
                         expect_noop = true;
                         self.feat.redundant[0][o.status.code() as usize] += 1;
-                    } else if !self.is_market.get(id).cloned().unwrap_or(false) {
-                        self.discipline(o.bid, o.price);
+                    } else if !self.is_market.get(id).cloned().unwrap_or(false) && !self.discipline(o.bid, o.price) {
+                        return Ok(pre.clone());
                     }
                     let ev = matches!(op, Op::EvNew(_));
                     self.apply_all(|b| if ev { b.process_event(&Ev::New(id)) } else { b.place_order(id) });
@@ -686,8 +724,8 @@ impl<'a> Run<'a> {
                             self.feat.offgrid_modify += 1;
                         }
                         let requeue = price.is_some() || vol.map_or(false, |v| v >= o.vol);
-                        if requeue && !off_grid {
-                            self.discipline(o.bid, price.unwrap_or(o.price));
+                        if requeue && !off_grid && !self.discipline(o.bid, price.unwrap_or(o.price)) {
+                            return Ok(pre.clone());
                         }
                         let shared_before = pre.orders.iter().any(|x| x.id != id && x.status == St::Active && x.bid == o.bid && x.price == o.price);
                         let np = price.unwrap_or(o.price);
@@ -857,7 +895,7 @@ impl<'a> Run<'a> {
                 }
                 // feature bookkeeping only; a wrong implementation may log ids the harness has not
                 // seen as resting orders, so nothing here may index blindly
-                if let (Some(pp), Some(po)) = (pre.orders.get(t.passive), post.orders.get(t.passive)) {
+                if let (true, Some(pp), Some(po)) = (pre.orders.len() <= 4096, pre.orders.get(t.passive), post.orders.get(t.passive)) {
                     if po.status == St::Active {
                         self.partially_filled[t.passive] = true;
                         self.feat.partial_head_fill = true;
@@ -1151,7 +1189,7 @@ impl<'a> Run<'a> {
                 }
             }
         }
-        let passive: Vec<usize> = post.trades[pre.trades.len().min(post.trades.len())..].iter().map(|t| t.passive).collect();
+        let passive: std::collections::HashSet<usize> = post.trades[pre.trades.len().min(post.trades.len())..].iter().map(|t| t.passive).collect();
         for (a, b) in pre.orders.iter().zip(post.orders.iter()) {
             if a.id != b.id || a.bid != b.bid || a.trader != b.trader {
                 return f(self, "C04 id/side/trader changed", format!("{:?} -> {:?}", a, b));
